@@ -796,3 +796,5 @@ V('ord1-early-lines', ['C16'], 'yalafi/shell/genhtml.py',
   "        if h.unsure or h.end <= h.beg:\n            h.end = h.beg + 1\n", "        h.endlin = tex.count('\\n', 0, h.end) + 1\n        if h.unsure or h.end <= h.beg:\n            h.end = h.beg + 1\n", 'ORD1')
 VARIANTS.append(dict(id='guard1-nopop', props=['C09'], expect=['GUARD1'], edits=[
   ('yalafi/handlers.py', "    extracted = parser.extracted\n    parser.extracted = []\n    try:\n        toks = parser.parser_work(latex)", "    if file in parser.unknowns:\n        utils.fatal('recursive')\n    parser.unknowns.append(file)\n    extracted = parser.extracted\n    parser.extracted = []\n    try:\n        toks = parser.parser_work(latex)")]))
+V('ps8-class-store', ['C17'], 'yalafi/shell/server.py',
+  "        latex = requ['text'][0]\n", "        latex = requ['text'][0]\n        Handler.last_text = latex\n", 'PS8')
